@@ -201,7 +201,7 @@ func runStagedC08(r *ev.Run, w *sworld, wid, label string, nCons int) {
 		r.Inconclusive("cannot create the staged index: " + err.Error())
 		return
 	}
-	g := &cgen{rng: r.Rand("staged-constraints/" + label), w: w}
+	g := &cgen{rng: r.Rand("staged-constraints/" + label), w: w, partial: true}
 	pn := &search.Constraint{CamliType: schema.TypePermanode}
 	and := func(a, b *search.Constraint) *search.Constraint {
 		return &search.Constraint{Logical: &search.LogicalConstraint{Op: "and", A: a, B: b}}
